@@ -204,6 +204,49 @@ def props_of_diff(d):
     return FIELD_PROPS.get(diff_field(d), [])
 
 
+def sig_f17(lines):
+    """Signature of known finding F17 over the steps of one run: an entity is despawned while a living
+    entity that had it as relation target at the last tick has been detached / re-attached since."""
+    at_tick, prev = {}, None
+    for d in lines:
+        w = d["post"]["srv"]["world"]
+        if d["ev"] == "Despawn" and prev is not None:
+            p = d["args"]["e"]
+            pw = prev["post"]["srv"]["world"]
+            for ch, old in at_tick.items():
+                if old == p and pw.get(ch, {}).get("alive") and pw[ch].get("parent") != p:
+                    return True
+        if d["ev"] == "SrvFrame" and d["args"].get("tick"):
+            at_tick = {e: v["parent"] for e, v in w.items() if v["alive"] and v.get("parent", "none") != "none"}
+        prev = d
+    return False
+
+
+def sig_f20(lines):
+    """Signature of known finding F20: set_visibility was called for an entity and the entity's marker is
+    removed later while it stays alive."""
+    touched = set()
+    for d in lines:
+        if d["ev"] == "SetVis":
+            touched.add(d["args"]["e"])
+        if d["ev"] == "Unmark" and d["args"]["e"] in touched:
+            return True
+    return False
+
+
+SIGNATURES = {"F17": sig_f17, "F20": sig_f20}
+
+
+def run_lines(trace, run):
+    out = []
+    with open(trace) as f:
+        for line in f:
+            d = json.loads(line)
+            if d["run"] == run:
+                out.append(d)
+    return out
+
+
 def selftest_binding(sd, trace, wd):
     """Corrupts one recorded field of a valid trace; the validator must report exactly that step."""
     lines = open(trace).read().splitlines()
@@ -282,7 +325,7 @@ class CoreCheck:
         return r
 
     # ---- 3. trace validation of real executions
-    def validate_profile(self, profile, runs, monitors_only=False, extra_monitors=(), extra_fields=()):
+    def validate_profile(self, profile, runs, monitors_only=False, extra_monitors=(), extra_fields=(), known=()):
         trace = os.path.join(self.wd, f"{profile}.ndjson")
         lines, panics = simtrace(profile, runs, self.seed, trace)
         diffs, viols, done = validate_trace(self.sd, trace, self.wd, monitors_only=monitors_only)
@@ -295,10 +338,19 @@ class CoreCheck:
         self.profiles[profile] = {"runs": runs, "events": lines, "diffs": done["diffs"], "viols": done["viols"],
                                   "attributed_to_this_property": len(mine_v) + len(mine_d), "panics": panics}
         seen_runs = set()
+        open_kf = {f["id"]: f for f in L.load_known_findings() if f.get("status") == "open" and f["id"] in known}
+        kf_hits = 0
         for x in mine_v + mine_d:
             if x["run"] in seen_runs:
                 continue
             seen_runs.add(x["run"])
+            if open_kf:
+                lines = run_lines(trace, x["run"])
+                hit = next((fid for fid in open_kf if SIGNATURES[fid](lines)), None)
+                if hit:
+                    kf_hits += 1
+                    self.v.known_finding(f"{hit}: {open_kf[hit]['what'][:160]}")
+                    continue
             rp = os.path.join(L.REPLAYS, f"{self.pid}-{profile}-seed{self.seed}-run{x['run']}.ndjson")
             os.makedirs(L.REPLAYS, exist_ok=True)
             extract_run(trace, x["run"], rp)
@@ -306,6 +358,13 @@ class CoreCheck:
                     f"conformance: {diff_field(x)} differs at step {x['i']} ({x['ev']}) client={x.get('c')}: "
                     f"pred={str(x.get('pred'))[:300]} obs={str(x.get('obs'))[:300]}")
             self.v.violation(rp, what)
+        if known and profile.startswith("kf_") and kf_hits == 0 and open_kf:
+            self.notes.append(f"{profile}: the scripted history of {sorted(open_kf)} no longer violates the property "
+                              f"- known_findings.json is out of date")
+            L.log(f"WARNING: known finding {sorted(open_kf)} did not reproduce on profile {profile}")
+        if known:
+            self.profiles[profile]["runs_matching_known_findings"] = kf_hits
+            self.profiles[profile]["known_findings_open"] = sorted(open_kf)
         if other:
             self.notes.append(f"{profile}: {other} diffs/violations attributed to other properties (see their checks)")
         if not self.samples:
